@@ -4,6 +4,7 @@ spec/ExtinctionLaw.tla (exact) + Extinction.tla (table built node by node, then 
 changes) replayed into Extinction.get_av + Trace_Extinction (random larger tables).
 """
 import os
+import zlib
 import pickle
 import random
 
@@ -67,7 +68,8 @@ def convert(law, kind, tmpdir, tag, inplace=False):
         new.wav = law.wav.to(u.nm)
         new.chi = law.chi.to(u.m ** 2 / u.kg)
     elif kind == 'units_cm':
-        new.wav = law.wav.to(u.cm)
+        # any unit of length, including ones in which the tabulated numbers become tiny (km, pc)
+        new.wav = law.wav.to([u.cm, u.m, u.km, u.pc][zlib.crc32(tag.encode()) % 4])
         new.chi = law.chi
     elif kind == 'scale3':
         new.wav = law.wav
